@@ -21,8 +21,8 @@ def plan(pid, tier, seed):
         ]
     else:
         mc = [
-            {"module": "BadSmell", "cfg": "BadSmell_MC_quick.cfg", "emit": True, "sample": 12000, "properties": PROPS_ALL, "timeout": 900},
-            {"module": "BadSmell", "cfg": "BadSmell_MC_thorough.cfg", "emit": True, "sample": 12000, "properties": PROPS_ALL,
+            {"module": "BadSmell", "cfg": "BadSmell_MC_quick.cfg", "emit": True, "sample": 8000, "properties": PROPS_ALL, "timeout": 900},
+            {"module": "BadSmell", "cfg": "BadSmell_MC_thorough.cfg", "emit": True, "sample": 8000, "properties": PROPS_ALL,
              "timeout": 3600, "coverage": True},
         ]
     return {
@@ -30,7 +30,7 @@ def plan(pid, tier, seed):
         "needs_coca": True,
         "mc": mc,
         "gen": [],
-        "rand": 300 if quick else 6000,
+        "rand": 300 if quick else 4000,
         "trace": TRACE,
         "run_timeout": 6000,
     }
